@@ -23,6 +23,8 @@ type UnifyCase struct {
 	Share bool        `json:"share,omitempty"`
 	// ShareAcross: x and y also share their common sub-terms with each other
 	ShareAcross bool `json:"shareAcross,omitempty"`
+	// Arena: parameter / tuple element lists are consecutive slices of one backing array
+	Arena bool `json:"arena,omitempty"`
 }
 
 // refMatch: does an instantiation of the variables of pattern p exist that
@@ -214,6 +216,9 @@ func checkUnify(c *UnifyCase) *Outcome {
 	X, Y := c.X, c.Y
 	ctx := run.NewTyCtx()
 	ctx.Share = c.Share
+	if c.Arena {
+		ctx.Arena = run.NewArena()
+	}
 	// shared sub-terms: with Share, identical sub-terms inside ONE type are one
 	// *types.Type; in every other case x and y are built from separate nodes, or
 	// (ShareAcross) from one pool
@@ -262,6 +267,25 @@ func checkUnify(c *UnifyCase) *Outcome {
 	if c.Share {
 		classes = append(classes, "shared-subterms")
 		nontrivial = nontrivial || X.Depth() > 1
+	}
+	// comparing types does not change them (nor a type that shares storage with them)
+	unchanged := func(after string) *Outcome {
+		if gx := ctx.From(x); gx.OrderString() != X.OrderString() {
+			return bad("after %s the first type reads %s, it was built as %s (y=%s arena=%v share=%v)", after, gx.OrderString(), X.OrderString(), Y.OrderString(), c.Arena, c.Share)
+		}
+		if gy := ctx.From(y); gy.OrderString() != Y.OrderString() {
+			return bad("after %s the second type reads %s, it was built as %s (x=%s arena=%v share=%v)", after, gy.OrderString(), Y.OrderString(), X.OrderString(), c.Arena, c.Share)
+		}
+		return nil
+	}
+	if o := unchanged("Equals"); o != nil {
+		return o
+	}
+	if exy2, _ := guardEquals(x, y); exy2 != exy {
+		return bad("Equals(x,y) answers %v and then %v for x=%s y=%s (arena=%v)", exy, exy2, X.OrderString(), Y.OrderString(), c.Arena)
+	}
+	if c.Arena && (X.HasKind(model.TFun) || Y.HasKind(model.TFun) || X.HasKind(model.TTuple)) {
+		classes = append(classes, "lists-carved-from-one-array")
 	}
 
 	// ---- unification
@@ -487,6 +511,7 @@ func genUnifyCase(t *rapid.T) *UnifyCase {
 	groundBot := gen.TypeOpt{Depth: 2, Maybe: true, Bot: true}
 	c := &UnifyCase{Share: rapid.IntRange(0, 2).Draw(t, "share") == 0}
 	c.ShareAcross = c.Share && rapid.Bool().Draw(t, "shareAcross")
+	c.Arena = rapid.IntRange(0, 2).Draw(t, "arena") == 0
 	tuple := func(n int, o gen.TypeOpt) *model.Type {
 		xs := make([]*model.Type, n)
 		for i := range xs {
@@ -660,7 +685,7 @@ func enumTypes(withBot bool) []*model.Type {
 }
 
 func TestC17(t *testing.T) {
-	R.Rule = "pairs (x,y[,z]) of types over num/str/bool/time, variables a,b,c (repeated), list, map, object (permuted field orders), optional, function, argument tuple outermost; built both with fresh nodes and with shared sub-terms; exhaustive over all types of depth<=2/width<=2 over {num,str,'a,'b}; systems of 2-5 equations over one variable pool (chains, aliases, cycles closed through k bindings, either side, every meeting order), exhaustively for 3 variables with right sides among {a,b,c,list[a],list[b],list[c],num,{p:a,q:num},{p:b,q:num},{p:c,q:num}}; non-trivial = repeated variable inside a container, or model-equal types with different field order, or an occurs-check pair, or shared sub-terms of depth>1"
+	R.Rule = "pairs (x,y[,z]) of types over num/str/bool/time, variables a,b,c (repeated), list, map, object (permuted field orders), optional, function, argument tuple outermost; built both with fresh nodes and with shared sub-terms, parameter / tuple element lists also carved consecutively from one backing array (spare capacity = the next list), the types read back unchanged after Equals and Equals asked twice; exhaustive over all types of depth<=2/width<=2 over {num,str,'a,'b}; systems of 2-5 equations over one variable pool (chains, aliases, cycles closed through k bindings, either side, every meeting order), exhaustively for 3 variables with right sides among {a,b,c,list[a],list[b],list[c],num,{p:a,q:num},{p:b,q:num},{p:c,q:num}}; non-trivial = repeated variable inside a container, or model-equal types with different field order, or an occurs-check pair, or shared sub-terms of depth>1"
 	R.Assume = []string{"model.Equal / refMatch (harness) define structural identity and instantiation", "⊥ only generated as container element; ⊤ not generated"}
 	reportKnown(t, "C17")
 	runRegress(t, "C17")
@@ -677,6 +702,11 @@ func TestC17(t *testing.T) {
 					}
 					if !yield(&UnifyCase{X: x, Y: y, Share: share > 0, ShareAcross: share == 2}) {
 						return
+					}
+					if share == 0 && (x.HasKind(model.TFun) || x.K == model.TTuple) {
+						if !yield(&UnifyCase{X: x, Y: y, Arena: true}) {
+							return
+						}
 					}
 				}
 			}
